@@ -32,27 +32,36 @@ Theorem C17_line_by_offset_low : forall swidth c off, off <= 1 ->
 Proof. exact glbo_low. Qed.
 Print Assumptions C17_line_by_offset_low.
 
-(* 2. seekable_window_correct — getContents' re-reading loop.  The FULL statement
-        forall c E, 1 <= E <= len c -> pos_ok c (E-1) (report of the seekable path)
-      is FALSE on the unchanged tree: the bytes before the window are counted with '\n' only, while
-      getLineByOffset also counts lone CR (finding "cr-window").  Proved: the statement for inputs whose CRs
-      are all followed by LF, in the strong form "same report as getLineByOffset on the whole file". *)
+(* 2. seekable_window_correct — getContents' re-reading loop (code after the repair of finding "cr-window": the
+      dropped bytes are counted by countNewlines = Count("\n") + Count("\r") - Count("\r\n"), and a chunk whose last
+      byte is CR gives that byte back (n--, Seek(-1)), so a CR LF pair is never split between dropped bytes and what
+      follows).  For EVERY file, every offset and every mix of LF / CR LF / CR, with no hypothesis on the
+      terminators: the report is getLineByOffset's on the whole file, hence correct (theorem 1). *)
 Definition C17_seekable_window_full : Prop := forall swidth c E, 1 <= E <= zlen c ->
   pos_ok swidth c (Z.to_nat (E - 1)) (report_of swidth (seek_report c (Some E))).
 
-Theorem C17_seekable_window_correct_partial : forall swidth c E, 1 <= E <= zlen c -> crlf_only c = true ->
+Theorem C17_seekable_window_correct : forall swidth c E, 1 <= E <= zlen c ->
   report_of swidth (seek_report c (Some E)) = getLineByOffset swidth c E.
 Proof. exact seek_window_correct. Qed.
-Print Assumptions C17_seekable_window_correct_partial.
+Print Assumptions C17_seekable_window_correct.
 
-Theorem C17_seekable_window_refuted : exists c E, 1 <= E <= zlen c /\
-  forall swidth, ~ pos_ok swidth c (Z.to_nat (E - 1)) (report_of swidth (seek_report c (Some E))).
-Proof. exists cr_input, cr_E. split; [vm_compute; split; discriminate | exact cr_seek_wrong]. Qed.
-Print Assumptions C17_seekable_window_refuted.
+Theorem C17_seekable_window_full_holds : C17_seekable_window_full.
+Proof. exact seek_window_pos_ok. Qed.
+Print Assumptions C17_seekable_window_full_holds.
 
-(* 3. pipe_window_correct — the non-seekable window (CURRENT code, after the repair of D7), for EVERY
-      behaviour of the decoder: any number of bytes read ahead (r_i >= p_i) at every delivered value.
-      Proved under "every CR is followed by LF" (the other case is the finding "cr-window"):
+(* regression: with the counting BEFORE the repair (crfix = false, bytes.Count(dropped, "\n") — [lf_seek_report])
+   the full statement is false: 200 x 100-byte documents ending in a lone CR report line 42 instead of 201; the
+   current code reports 201 on the same input.  Reverting the repair in the model breaks theorem 2 and this. *)
+Example C17_seekable_window_old_counting_wrong : 1 <= cr_E <= zlen cr_input /\
+  (forall swidth, ~ pos_ok swidth cr_input (Z.to_nat (cr_E - 1)) (report_of swidth (lf_seek_report cr_input (Some cr_E)))) /\
+  (forall swidth, report_of swidth (seek_report cr_input (Some cr_E)) =
+                  (codes "{""b"": tru }", 201, swidth (codes "{""b"": tru"))).
+Proof. split; [vm_compute; split; discriminate|]. split; [exact cr_seek_old_wrong | exact cr_seek_now_right]. Qed.
+
+(* 3. pipe_window_correct — the non-seekable window (CURRENT code: after the repair of D7 and of "cr-window": the
+      trimmed bytes are counted by countNewlines and a trailing CR stays in the buffer), for EVERY behaviour of the
+      decoder: any number of bytes read ahead (r_i >= p_i) at every delivered value, every mix of LF / CR LF / CR,
+      no hypothesis on the terminators:
       (a) the window never drops the offending byte, the line number is the specification's, excerpt and
           caret are getLineByOffset's on the kept part of the input (to which theorem 1 applies);
       (b) if the window starts at the beginning or >= 52 bytes before the offending byte and >= 64 bytes
@@ -60,7 +69,7 @@ Print Assumptions C17_seekable_window_refuted.
       Without (b)'s room the quoted excerpt may start at the window start instead of 48 bytes before the
       caret (still a piece of the right line with the caret under the offending byte). *)
 Theorem C17_pipe_window_correct : forall swidth c steps rerr E,
-  chunking_ok c steps rerr E -> crlf_only c = true ->
+  chunking_ok c steps rerr E ->
   let start := p_start (pipe_run c steps) in
   let '(ex, line, col) := report_of swidth (pipe_report c steps rerr (Some E)) in
   0 <= start < E /\ line = spec_line c (Z.to_nat (E - 1)) /\
@@ -70,34 +79,45 @@ Proof. exact pipe_window_kept. Qed.
 Print Assumptions C17_pipe_window_correct.
 
 Theorem C17_pipe_window_exact : forall swidth c steps rerr E,
-  chunking_ok c steps rerr E -> crlf_only c = true ->
+  chunking_ok c steps rerr E ->
   let start := p_start (pipe_run c steps) in
   (start = 0 \/ start + 52 <= E - 1) -> (E - 1 + 64 <= rerr \/ rerr = zlen c) ->
   report_of swidth (pipe_report c steps rerr (Some E)) = getLineByOffset swidth c E.
 Proof. exact pipe_window_exact. Qed.
 Print Assumptions C17_pipe_window_exact.
 
-(* the full statement (no hypothesis on CR) is false for the same reason as in 2. *)
-Definition C17_pipe_window_full : Prop := forall swidth c steps rerr E,
-  chunking_ok c steps rerr E ->
-  pos_ok swidth c (Z.to_nat (E - 1)) (report_of swidth (pipe_report c steps rerr (Some E))).
+(* regression: the counting before the repair ([lf_pipe_report]) on the CR input, every value delivered with
+   everything already read: wrong line; the current code: line 201 *)
+Example C17_pipe_window_old_counting_wrong : chunking_ok cr_input cr_steps 20012 cr_E /\
+  (forall swidth, ~ pos_ok swidth cr_input (Z.to_nat (cr_E - 1))
+                     (report_of swidth (lf_pipe_report cr_input cr_steps 20012 (Some cr_E)))) /\
+  (forall swidth, report_of swidth (pipe_report cr_input cr_steps 20012 (Some cr_E)) =
+                  (codes "{""b"": tru }", 201, swidth (codes "{""b"": tru"))).
+Proof. split; [exact cr_chunking|]. split; [exact cr_pipe_old_wrong | exact cr_pipe_now_right]. Qed.
 
-Theorem C17_pipe_window_cr_refuted : exists c steps rerr E,
-  chunking_ok c steps rerr E /\
-  forall swidth, ~ pos_ok swidth c (Z.to_nat (E - 1)) (report_of swidth (pipe_report c steps rerr (Some E))).
-Proof. exists cr_input, cr_steps, 20012, cr_E. split; [exact cr_chunking | exact cr_pipe_wrong]. Qed.
-Print Assumptions C17_pipe_window_cr_refuted.
+(* instances with a CR LF pair exactly at a boundary: CR = byte 16383 (last byte of getContents' first chunk / last
+   byte the decoder consumed when the pipe buffer is trimmed), LF = byte 16384; later a lone CR and CR CR LF.
+   The CR is kept (window starts at 16383), line 5 = the specification's *)
+Example C17_split_crlf_counted_once : forall swidth,
+  (zidx split_input 16383 = 13%N /\ zidx split_input 16384 = 10%N /\
+   report_of swidth (seek_report split_input (Some split_E)) = (codes "{""b"": tru }", 5, swidth (codes "{""b"": tru")) /\
+   spec_line split_input (Z.to_nat (split_E - 1)) = 5) /\
+  (chunking_ok split_input [(17000, 16384)] (zlen split_input) split_E /\
+   p_start (pipe_run split_input [(17000, 16384)]) = 16383 /\
+   report_of swidth (pipe_report split_input [(17000, 16384)] (zlen split_input) (Some split_E)) =
+     (codes "{""b"": tru }", 5, swidth (codes "{""b"": tru"))).
+Proof. intros. split; [apply split_seek_right|apply split_pipe_right]. Qed.
 
 (* 3'. unexpected EOF (io.ErrUnexpectedEOF): the offending position is the end of the input.
       Seekable: pos = Seek(0, SeekEnd), getContents' loop, Error() asks for len(contents)+1.
       Non-seekable: contents = buf.String(), everything has been read (rerr = len c); the delivered values
       consumed p_i < len c bytes (a truncated document follows), read-ahead arbitrary. *)
-Theorem C17_seekable_window_eof : forall swidth c, crlf_only c = true ->
+Theorem C17_seekable_window_eof : forall swidth c,
   report_of swidth (seek_report c None) = getLineByOffset swidth c (zlen c + 1).
 Proof. exact seek_window_eof_correct. Qed.
 Print Assumptions C17_seekable_window_eof.
 
-Theorem C17_pipe_window_eof : forall swidth c steps, chunking_eof_ok c steps -> crlf_only c = true ->
+Theorem C17_pipe_window_eof : forall swidth c steps, chunking_eof_ok c steps ->
   let start := p_start (pipe_run c steps) in
   let '(ex, line, col) := report_of swidth (pipe_report c steps (zlen c) None) in
   0 <= start < zlen c /\ line = spec_line c (List.length c - 1) /\
@@ -106,7 +126,7 @@ Theorem C17_pipe_window_eof : forall swidth c steps, chunking_eof_ok c steps -> 
 Proof. exact pipe_window_eof_kept. Qed.
 Print Assumptions C17_pipe_window_eof.
 
-Theorem C17_pipe_window_eof_exact : forall swidth c steps, chunking_eof_ok c steps -> crlf_only c = true ->
+Theorem C17_pipe_window_eof_exact : forall swidth c steps, chunking_eof_ok c steps ->
   let start := p_start (pipe_run c steps) in
   (start = 0 \/ start + 53 <= zlen c) ->
   report_of swidth (pipe_report c steps (zlen c) None) = getLineByOffset swidth c (zlen c + 1).
@@ -183,12 +203,12 @@ Proof. split; [exact d7_chunking|]. split; [exact d7_old_wrong | exact d7_now_ri
 
 (* non-vacuity: hypotheses are satisfiable and the statements speak about real reports *)
 Example C17_nonvacuous :
-  utf8 [228; 184; 150; 97]%N /\ crlf_only (codes "a" ++ [13; 10]%N ++ codes "b") = true /\
+  utf8 [228; 184; 150; 97]%N /\
   getLineByOffset (fun s => zlen s) (codes "ab" ++ [10%N] ++ codes "cd") 5 = (codes "cd", 2, 1) /\
   spec_line (codes "ab" ++ [13; 10]%N ++ codes "cd") 4 = 2 /\
-  chunking_ok d7_input d7_steps d7_rerr d7_E /\ crlf_only d7_input = true.
+  chunking_ok d7_input d7_steps d7_rerr d7_E /\ chunking_ok cr_input cr_steps 20012 cr_E.
 Proof.
   split; [apply (utf8_app [228; 184; 150]%N); [reflexivity|]; apply (utf8_app [97%N]); [reflexivity|constructor]|].
-  split; [reflexivity|]. split; [vm_compute; reflexivity|]. split; [reflexivity|].
-  split; [exact d7_chunking|vm_compute; reflexivity].
+  split; [vm_compute; reflexivity|]. split; [reflexivity|].
+  split; [exact d7_chunking|exact cr_chunking].
 Qed.
